@@ -354,9 +354,11 @@ public:
                                 );
                 }
 
+                this->_info._histogram.resize( this->_info._num_palette );
+
                 std::copy( histogram
                          , histogram + this->_info._num_palette
-                         , &this->_info._histogram.front()
+                         , this->_info._histogram.begin()
                          );
             }
         }
@@ -576,13 +578,13 @@ public:
                 //@todo What to do, here? How do I know the length of the "trans" array?
             }
 
-            if( this->_info._num_trans )
+            if( this->_info._num_trans && trans_values )
             {
+                // trans_values points to a single png_color_16, the transparent color of a
+                // non-palette image. The _num_trans alpha values of a palette image are
+                // in trans, they are not an array of png_color_16.
                 this->_info._trans_values.resize( this->_info._num_trans );
-                std::copy( trans_values
-                         , trans_values + this->_info._num_trans
-                         , &this->_info._trans_values.front()
-                         );
+                this->_info._trans_values.front() = *trans_values;
             }
         }
 
